@@ -376,7 +376,7 @@ def handshake_case(rng, B):
         staA = bssid[:5] + bytes([bssid[5] ^ rng.choice([1, 0x80])])
         staB = bssid[:3] + rand_bytes(rng, 3)
     kind = rng.choice(["valid", "valid", "valid", "restart", "m1-again", "wrong-psk", "missing-m3", "reorder", "no-ap",
-                       "rekey", "rekey", "grammar", "grammar", "grammar", "close-nonces"])
+                       "rekey", "rekey", "grammar", "grammar", "grammar", "close-nonces", "bad-mic"])
     two = rng.random() < 0.35
     ops = ["case"]
     evs = []          # (frame bytes, annotation or None)
@@ -461,6 +461,16 @@ def handshake_case(rng, B):
             for n in (1, 2, 3):
                 seq += [(att.msg(n), None)] * dup()
             seq += [(att.msg(4), "nolearn")]
+            return seq, None
+        if kind == "bad-mic":
+            # a complete, well-ordered handshake whose message 4 carries a Key MIC that is wrong in a single octet
+            # (every position, the last one most often): nothing may be learned
+            for n in (1, 2, 3):
+                seq += [(att.msg(n), None)] * dup()
+            m4 = bytearray(att.msg(4))
+            off = len(m4) - (99 - 81) + rng.choice([15, 15, 15, 0, rng.randrange(16)])
+            m4[off] ^= 1 << rng.randrange(8)
+            seq += [(bytes(m4), "nolearn")]
             return seq, None
         if kind == "missing-m3":
             seq += [(att.msg(1), None), (att.msg(2), None), (att.msg(4), None)]
